@@ -392,10 +392,21 @@ where
 
         let sigma: Model::ScalarType = Float::sqrt(reduced_chi2);
 
-        let HTH_inv = (H.transpose() * H)
-            .try_inverse()
+        // H^T H is symmetric positive (semi-)definite by construction. We invert it
+        // via its Cholesky factor H^T H = L L^T, because (a) the factorization fails
+        // iff the matrix is numerically singular, and (b) the inverse L^-T L^-1 is
+        // positive semidefinite by construction.
+        let L = (H.transpose() * H)
+            .cholesky()
+            .ok_or(Error::MatrixInversion)?
+            .unpack();
+        let L_inv = L
+            .solve_lower_triangular(&OMatrix::<Model::ScalarType, Dyn, Dyn>::identity(
+                L.nrows(),
+                L.ncols(),
+            ))
             .ok_or(Error::MatrixInversion)?;
-        let covariance_matrix = HTH_inv * sigma * sigma;
+        let covariance_matrix = L_inv.transpose() * &L_inv * sigma * sigma;
 
         // we don't calculate R^2, see the notes on the documentation
         // of this struct
@@ -423,8 +434,8 @@ where
                 // in the linked docs, the code is given as a double sum. However,
                 // this can be simplified into a quadratic form b^T A b, where b are the
                 // rows of the Jacobian and A is the covariance matrix.
-                *sig = j.dot(&(&covariance_matrix * &j));
-                *sig = Float::sqrt(*sig);
+                // j^T Cov j = sigma^2 * || L^-1 j ||^2
+                *sig = (&L_inv * &j).norm() * sigma;
             });
 
         Ok(Self {
